@@ -17,7 +17,8 @@ POOL = {
             "permit udp 10.0.0.0 0.0.1.3 eq syslog any", "permit tcp any any eq cmd", "deny icmp any host 1.1.1.1", "permit tcp any any neq 80",
             "20 permit ip object-group G1 object-group G2 log", "permit 47 10.1.2.3 0.255.0.255 any", "permit tcp any gt 1023 any lt 1024 syn",
             "permit tcp any any eq msrpc", "permit ip 0.0.0.0 255.255.255.255 10.0.0.0 0.0.0.3", "permit ospf any any", "remark text one", "30 remark = H1",
-            "permit tcp any eq 1 2 3 any", "permit udp any any eq 67 68", "permit ahp any any", "permit tcp any any eq onep-plain"],
+            "permit tcp any eq 1 2 3 any", "permit udp any any eq 67 68", "permit ahp any any", "permit tcp any any eq onep-plain",
+            "permit tcp object-group G1 eq 80 443 object-group G2 eq 22 23"],
     "nxos": ["permit ip any any", "10 deny tcp 10.0.0.1/32 eq 80 10.0.0.0/24 range 20 21 ack log", "permit tcp any eq www any eq 22",
              "permit udp 10.0.0.0 0.0.1.3 eq syslog any", "permit tcp any any eq cmd", "deny icmp any 1.1.1.1/32", "permit tcp any any neq 80",
              "20 permit ip addrgroup G1 addrgroup G2 log", "permit 47 10.1.2.3 0.255.0.255 any", "permit tcp any gt 1023 any lt 1024 syn",
@@ -117,6 +118,7 @@ def check_acl(arg):
                 if isinstance(x, cisco_acl.Ace):
                     yield x
     members_before = [[(m.prefix) for m in a.items] for o in all_aces(acl) for a in (o.srcaddr, o.dstaddr) if a.addrgroup]
+    by_name = {a.addrgroup: sorted(m.prefix for m in a.items) for o in all_aces(acl) for a in (o.srcaddr, o.dstaddr) if a.addrgroup}
     try:
         h0, r0 = rules(before_text, src)
     except cisco_ref.RefError as ex:
@@ -183,6 +185,11 @@ def check_acl(arg):
     members_after = [[(m.prefix) for m in a.items] for o in all_aces(acl) for a in (o.srcaddr, o.dstaddr) if a.addrgroup]
     if members_after != members_before and not any("eq" in l and len(l.split()) > 8 for l in lines):
         bad("members", f"address-group members changed: {members_before} -> {members_after}")
+    # per reference (also through port splitting): every address that names a group carries that group's members
+    for o in all_aces(acl):
+        for a in (o.srcaddr, o.dstaddr):
+            if a.addrgroup and a.addrgroup in by_name and sorted(m.prefix for m in a.items) != by_name[a.addrgroup]:
+                bad("members", f"after conversion an entry references {a.addrgroup} with members {[m.prefix for m in a.items]}, the group has {by_name[a.addrgroup]}")
     # there . back . there == there
     if not fails:
         try:
